@@ -37,6 +37,7 @@ var (
 	// could cut short - torn writes are explored separately by truncation
 	barrierBegin, barrierEnd string
 	barrierPrefix            string // sites with this prefix lie inside the region
+	crashPending             atomic.Bool
 	inBarrier                atomic.Int64
 )
 
@@ -158,6 +159,9 @@ func Point(site string) {
 		if barrierPrefix != "" && strings.HasPrefix(site, barrierPrefix) && site != barrierBegin && site != barrierEnd {
 			own = 1
 		}
+		// from now on nobody enters the region any more (see below); wait for
+		// those who are inside
+		crashPending.Store(true)
 		for i := 0; inBarrier.Load() > own && i < 30000; i++ {
 			time.Sleep(100 * time.Microsecond)
 		}
@@ -169,6 +173,11 @@ func Point(site string) {
 	}
 	if barrierBegin != "" && site == barrierBegin {
 		inBarrier.Add(1)
+		if crashPending.Load() {
+			// the process is about to die: do not start another write
+			inBarrier.Add(-1)
+			select {}
+		}
 	}
 	if f := callback.Load(); f != nil {
 		(*f)(site)
